@@ -39,6 +39,45 @@ def derived_props(repo):
     return out
 
 
+def membership_rules(repo, res):
+    """Q8: the two set-membership primitives behind position and orientation goals.  The shape group is evaluated
+    abstractly on a group of three member shapes for every pattern of which members contain the point; the angle
+    interval containment is the interval abstract interpretation of C16 (shared)."""
+    from ..strdom import Ev, ListV, Obj, PyFunc, Sym, Undecided, _Raise, show
+
+    SH = "commonroad/geometry/shape.py"
+    sg = repo.cls(SH, "ShapeGroup")
+    fn = sg.methods.get("contains_point")
+    if fn is None:
+        raise AnalysisError("ShapeGroup.contains_point missing")
+    qn = "ShapeGroup.contains_point"
+    point = Sym("point", "num")
+    for pattern in ((False, False, False), (True, False, False), (False, True, False), (False, False, True), (True, True, False)):
+        asked = []
+        members = []
+        for i, inside in enumerate(pattern):
+            members.append(Obj(None, {"contains_point": PyFunc(lambda a, k, inside=inside, i=i: (asked.append((i, a[0] if a else None)), inside)[1], "contains_point")}, closed=True, label="member %d" % i))
+        me = Obj(sg, {"_shapes": ListV(members)}, label="shape group")
+        ev = Ev(repo)
+        ev.pure_modules = {"np", "numpy", "math", "shapely"}
+        label = "point inside member(s) %s" % ([i for i, x in enumerate(pattern) if x] or "none")
+        bad = None
+        try:
+            r = ev.call_fn(ev.bind(fn, sg, me), [point], {}, fn)
+            if ev.truth(r) != any(pattern):
+                bad = "answers %s" % show(r)
+            elif any(p is not point for _i, p in asked):
+                bad = "asks a member about another point"
+        except _Raise as x:
+            bad = "raises %s" % x.what
+        except Undecided as x:
+            raise AnalysisError("%s [%s]: %s" % (qn, label, x))
+        res.check("Q8-MEMBERSHIP", "%s [%s]: true iff some member contains the point" % (qn, label), bad is None, sg.mod, fn, "%s [%s] %s" % (qn, label, bad), "a goal given by several lanelets / shapes is reached only through some of them (the group is not the union of its members)", qualname=qn)
+    from .c16 import range_rule
+
+    range_rule(repo, res, "Q8-MEMBERSHIP")
+
+
 def run(repo, res, tier):
     res.rule("Q1-CLOBBER", "no store into a dependency of a derived state property followed by a read of that property on the same object", 1)
     res.rule("Q2-DISPATCH", "number/interval dispatch admits int and float", 2)
@@ -47,6 +86,8 @@ def run(repo, res, tier):
     res.rule("Q5-PAIRING", "state attribute compared with the goal attribute of the same name; speed/heading conventions", 6)
     res.rule("Q6-INDEX", "goal_reached returns the index of the state that reached the goal", 2)
     res.rule("Q7-PER-GOAL", "each goal state is evaluated on data built afresh in its own loop iteration", 1)
+    res.rule("Q8-MEMBERSHIP", "the membership tests the goal check relies on: a shape group (lanelet goal) contains a point iff one of its members does; an angle interval contains an orientation modulo 2pi", 9)
+    membership_rules(repo, res)
     eff = Effects(repo)
     gmod = repo.mod(G)
     goal = repo.cls(G, "GoalRegion")
